@@ -551,9 +551,13 @@ FirstDig(gens, rp, f) == FindFirst(gens, rp, f)
 P_C04_Judged(pre, post, dk, op, ob) ==
   (op.op \in {"create", "createsf"} /\ ob.exit \in {0, 10, 11})
     => \A h \in Wrote(pre, post) : \A g \in SeqSet(NewGens(pre, post, h)) : \A rp \in DOMAIN g.files :
-         \* judged by path: a file recorded under a new name (rename detection) starts as original
-         LET old    == GensOf(pre, h)
-             lp     == rp
+         \* judged by path: a file recorded under a new name (rename detection) starts as original.
+         \* "first recorded" refers to the history the file belongs to - the deepest one whose root contains it -
+         \* wherever this run happened to write the record
+         LET H      == Visible(pre, dk, op.R) \cup Wrote(pre, post)
+             own    == IF IsFile(dk, h \o rp) THEN OwnerIn(H, op.R, h \o rp, FALSE) ELSE h
+             old    == GensOf(pre, own)
+             lp     == IF own = h THEN rp ELSE Rel(own, h \o rp)
              known  == \E i \in DOMAIN old : RecOf(old[i], lp) # <<>>
              ents   == g.files[rp].ents
          IN IF ~known
